@@ -364,8 +364,6 @@ def _visit(R, ti, mat, only):
             runs["raw-chunks-collected"] = [x for ch in raw for x in f(ch)]
             kept = split(clr, chunksize=cs).pipe(lambda chunk: chunk).gather()
             runs["stage-returns-its-chunk"] = [x for ch in kept for x in f(ch)]
-            if len({id(ch) for ch in raw}) != len(raw) or len({id(ch["pixels"]) for ch in raw}) != len(raw):
-                R.mismatch("split-pipeline-hands-out-the-same-chunk-object-twice", inner, f"{len(raw)} chunks, {len({id(ch) for ch in raw})} distinct objects")
             for how, flat2 in runs.items():
                 if flat2 != allpix:
                     R.mismatch("split-pipeline-does-not-visit-every-pixel-once:" + how, inner, f"saw={flat2} stored={allpix}")
